@@ -629,7 +629,10 @@ impl State {
             );
         }
 
-        for change in decode_state.changes.drain(..) {
+        // undo the changes of the block in the reverse of the order they were detected in, so that
+        // a change is undone before the change that made it possible (e.g. the sweep of a closing
+        // transaction output before the closing transaction itself, when both are in this block)
+        for change in decode_state.changes.drain(..).rev() {
             self.apply_backward_change(&mut adds, &mut removes, change);
         }
 
